@@ -1,0 +1,45 @@
+//go:build verif
+
+/*
+ * Licensed to the Apache Software Foundation (ASF) under one or more
+ * contributor license agreements.  See the NOTICE file distributed with
+ * this work for additional information regarding copyright ownership.
+ * The ASF licenses this file to You under the Apache License, Version 2.0
+ * (the "License"); you may not use this file except in compliance with
+ * the License.  You may obtain a copy of the License at
+ *
+ *     http://www.apache.org/licenses/LICENSE-2.0
+ *
+ * Unless required by applicable law or agreed to in writing, software
+ * distributed under the License is distributed on an "AS IS" BASIS,
+ * WITHOUT WARRANTIES OR CONDITIONS OF ANY KIND, either express or implied.
+ * See the License for the specific language governing permissions and
+ * limitations under the License.
+ */
+
+package base
+
+import (
+	"fmt"
+
+	"seata.apache.org/seata-go/pkg/datasource/sql/undo"
+)
+
+// VerifDecodeUndoLog runs the decoding half of Undo (context -> decompressor -> parser) on a
+// (context, rollback_info) pair as stored in undo_log.
+// Verification-only: compiled with the build tag `verif`.
+func VerifDecodeUndoLog(context []byte, rollbackInfo []byte) (*undo.BranchUndoLog, error) {
+	m := NewBaseUndoLogManager()
+	var logCtx map[string]string
+	if context != nil && string(context) != "" {
+		logCtx = m.decodeUndoLogCtx(context)
+	}
+	if logCtx == nil {
+		return nil, fmt.Errorf("undo log context not exist")
+	}
+	info, err := m.getRollbackInfo(rollbackInfo, logCtx)
+	if err != nil {
+		return nil, err
+	}
+	return m.deserializeBranchUndoLog(info, logCtx)
+}
